@@ -227,8 +227,11 @@ def run(ctx):
         hist = {"ok": 0, "error": 0, "diff": 0}
         pooled = 0
         if r.returncode != 0 or len(outs) != len(cases):
-            idx = min(len(outs), len(cases) - 1)
-            ctx.oracle_failure("c33:compile:crash", "c33_compile crashed (rc=%s) on case %d" % (r.returncode, idx),
+            hang = bool(outs) and outs[-1] == "TIMEOUT"
+            idx = min(len(outs) - (1 if hang else 0), len(cases) - 1)
+            ctx.oracle_failure("c33:compile:hang" if hang else "c33:compile:crash",
+                               ("mj_compile did not return within 120 s on case %d (asset thread pool dead-locked?)" % idx) if hang
+                               else "c33_compile crashed (rc=%s) on case %d" % (r.returncode, idx),
                                {"case": cases[idx][0][:6000], "stderr": r.stderr[-500:],
                                 "replay": "feed the case text to <c33_compile harness>"})
         else:
